@@ -32,27 +32,33 @@ CATALOGUE OF PANIC SITES of the anchored code and the model construct that stand
     reflect.StructOf(layerFields) with duplicate / invalid names  — ; excluded by the property ("distinct flattened leaf names")
   transform/flatten_mangler.go
     populateStruct vs[inputIndex]                                 `populate`: .panic "index out of range"
-    populateStruct originalVal.Set(setVal) (*struct into struct)  `populate`: .panic "reflect.Set: *struct into struct"; pointer levels: fact F21g
+    populateStruct originalVal.Set(setVal) (*struct into struct)  code repaired (P02): a struct held by value is stored as is, fact F21r; pointer levels:
+                                                                  fact F21g.  The model's `populate` keeps .panic "reflect.Set: *struct into struct"
+                                                                  (conservative: C16_env_value_struct_counterexample)
     populateStruct nestedVal.Set / originalVal.Set (leaf)         — (untyped values); guards: facts F21h, F21i, F21j; finding P11
     isNil(val): val.IsNil()                                       `Val.isNil` (total); kind switch in the code
     GetField: explicit panic (missing dialsfieldpath tag)         — (tag always set by getTag)
   transform/alias_mangler.go Unmangle fvs[0], fvs[1], IsNil       `aliasUnmangle`: error for other lengths; fact F21m
   transform/anonymous_flatten_mangler.go fvs[0], fvs[fvsIdx],     `anonUnmangle`: .panic "index out of range"; NumField on a
-    sf.Type.NumField()                                            non-struct: — (finding P08)
+    sf.Type.NumField()                                            non-struct: — ; repaired (P08): embedded pointers to non-structs
+                                                                  are passed through, fact F21y
   transform/set_slice_mangler.go vs[0], SetMapIndex               `setSliceMangler`: .panic "index out of range"
   transform/single_type_substitution_mangler.go fval[0], Convert  `durSubMangler`: .panic "index out of range"; Convert: —
   transform/string_casting_mangler.go
     vs[0]                                                         `stringCastMangler`: .panic "index out of range"
     strPtrInterface.(*string)                                     .panic "not a *string"
-    sf.Type.Elem() of a type without element type                 .panic "reflect: Elem of invalid type"   (finding P02)
+    sf.Type.Elem() of a type without element type                 repaired (P02): now an error, guard `hasElemTy`:
+                                                                  .err "cannot cast a string to a field that is not a pointer, slice or map"; fact F21s
     parsed.Convert(sf.Type)                                       — ; guarded by ConvertibleTo: fact F21e
   transform/text_unmarshaler_mangler.go vs[0], .(*string)         `textUnmarshalerMangler`: .panic "index out of range" / "not a *string"
   tagformat/expand_tags.go, reformat_tags.go vs[0], Convert       `tagCopyMangler`, `tagReformatMangler`: .panic "index out of range"
-  sources/env/env.go explicit panic (empty dialsenv tag)          `envValue`: .panic "empty dialsenv tag"; fact F21p (finding P05)
+  sources/env/env.go explicit panic (empty dialsenv tag)          repaired (P05): now returns an error; `envValue`: .err "empty dialsenv tag"; fact F21p
   sources/env/env.go val.Field(i).Set(&envVarVal)                 — (every field is *string after the string cast)
-  sources/flag/flag.go, sources/pflag/pflag.go                    — (no flag model): explicit panics (mkname, nil field), Convert,
-    ffield.IsNil(), Overflow*, flag.Var's own panics              interface assertions: harness only (findings P02, P04, P06, P07)
-  decoders/{json,yaml,toml,cue}: third-party Unmarshal            — : harness only (findings P09, P14); `must(...)` at package init
+  sources/flag/flag.go, sources/pflag/pflag.go                    — (no flag model): the kind / ConvertibleTo / name / shorthand checks now return
+    ffield.IsNil(), Convert, Overflow*, flag.Var's own panics     errors (repaired P02, P04, P06, P07): facts F21u–F21x; remaining: the explicit
+                                                                  panics in mkname / "field … is nil": harness only
+  decoders/{json,yaml,toml,cue}: third-party Unmarshal            — : harness only; toml / cue: panics of the parser recovered into errors (repaired
+                                                                  P09, P14), fact F21aa; `must(...)` at package init
 
 What is proved (for ALL inputs, no bound):
   * the parsers: `parseNumber`, `parseIntSlice`, the scanners' state machines for any token list,
@@ -63,9 +69,14 @@ What is proved (for ALL inputs, no bound):
     translator can emit, never panic — for ANY field list;
   * the env source's chain (regenerated: `Facts.chainEnv`) never panics on field lists satisfying the
     decidable predicate `SupportedCfg` (Lemmas/TotalEnv.lean), for every environment, prefix, fuel and
-    scanner token table; outside `SupportedCfg` each of the model's panics is reachable (counterexample
-    theorems), and each corresponds to a finding on the real code (P02, P05) except the array one
-    (a model artefact: see its doc comment).
+    scanner token table.  `SupportedCfg` is now: every struct nested behind a pointer; no array of structs
+    as a bare leaf — nothing else.  Outside `SupportedCfg` each of the model's two remaining panics is
+    reachable (counterexample theorems); neither is a panic of the real code any more: the by-value struct
+    is conservative (the code was repaired, P02; the model's `populate`, shared with C10, keeps the old
+    behaviour) and the array one is a model artefact (see the doc comments).  The shapes of the repaired
+    findings P02 (`Elem()` of a type without element type) and P05 (empty `dialsenv` tag) are inside
+    `SupportedCfg` and evaluate to errors (C16_env_unwrapped_leaf_is_error, C16_env_empty_tag_is_error,
+    C16_repaired_shapes_supported).
 PARTIAL (named): arbitrary bytes into the four third-party parsers, non-ASCII text, the flag / pflag
 sources and reflect's assignability (the transformer model's values are untyped) are outside the
 models: implementation-only streams of harness/c16.go.
@@ -171,42 +182,48 @@ theorem C16_env_names_total (fuel : Nat) (parse : String → Ty → Outcome Val)
 
 /-- The environment source never panics on a supported config type: for the chain regenerated from
 sources/env/env.go (`envChain` = `Facts.chainEnv`), every field list satisfying the decidable
-`SupportedCfg` (every struct nested behind a pointer, every nested field nil-able or an array of
-non-structs, `dialsenv` tags non-empty after the tag copy — see Lemmas/TotalEnv.lean), every
+`SupportedCfg` (every struct nested behind a pointer, no array of structs as a bare nested leaf —
+nothing else: since the repairs of P05 and P02 an empty `dialsenv` tag and a nested field without
+element type are errors, not panics — see Lemmas/TotalEnv.lean), every
 environment, prefix, scanner token table and fuel: the result is a value or an error.  Includes
 user-defined named scalars, slices, maps, sets, user pointers (`**T` on scalars), nested
-pointer-to-structs, slices of structs, alias tags at any depth. -/
+pointer-to-structs, slices of structs, alias tags at any depth, scalar / duration / text-unmarshaler
+fields that Pointerify did not wrap (behind `**T`), fields with empty or missing `dialsenv` tags. -/
 theorem C16_env_total (fuel : Nat) (toks : TokTable) (pfx : String) (fs : List FT)
     (lookup : String → Option String) (h : SupportedCfg fuel fs = true) :
     ∀ c, envValue fuel (envChain fuel toks) pfx fs lookup ≠ .panic c :=
   envValue_noPanic fuel toks pfx fs lookup h
 
 /-- Outside `SupportedCfg` (1): a struct nested BY VALUE below a pointer (`P *struct{ X struct{ A *int } }`,
-variable P_X_A set) reaches populateStruct's `reflect.Set` of a `*struct` into a `struct`.  Pointerify
-never produces this shape for `*T`, but leaves it in place behind `**T`: the real env source panics on
-`struct{ P **struct{ X struct{ A *int } } }` with P_X_A=1 (finding P02). -/
+variable P_X_A set) reaches the model's `reflect.Set` of a `*struct` into a `struct` in `populate`.
+This panic of the MODEL is conservative: since the repair of P02 populateStruct stores a struct held by
+value instead of setting a pointer on it (fact F21r), so the real code no longer panics; the model's
+`populate` (shared with C10) still has the old behaviour.  Pointerify never produces the shape except
+behind `**T`.  `SupportedCfg` keeps excluding it so that the theorem does not depend on the model being
+updated. -/
 theorem C16_env_value_struct_counterexample :
     envValue 64 (envChain 64 cxToks) "" cxValueStruct (fun s => if s = "P_X_A" then some "1" else none) =
       .panic "reflect.Set: *struct into struct" :=
   envValue_panics_value_struct
 
-/-- Outside `SupportedCfg` (2): a scalar field that Pointerify did not wrap (`P **struct{ A int }`, variable
-P_A set) reaches the string-cast mangler's `sf.Type.Elem()`.  The real env source panics with "reflect:
-Elem of invalid type int" on exactly this type and input (finding P02). -/
-theorem C16_env_unwrapped_leaf_counterexample :
+/-- `P **struct{ A int }` with P_A set: since the repair of P02 the string-cast mangler returns an error
+for a field type without element type (before: reflect panicked in Type.Elem); the model follows; the
+type is inside `SupportedCfg` (C16_repaired_shapes_supported). -/
+theorem C16_env_unwrapped_leaf_is_error :
     envValue 64 (envChain 64 cxToks) "" cxUnwrappedLeaf (fun s => if s = "P_A" then some "1" else none) =
-      .panic "reflect: Elem of invalid type" :=
-  envValue_panics_unwrapped_leaf
+      .err "cannot cast a string to a field that is not a pointer, slice or map" :=
+  envValue_unwrapped_leaf_is_error
 
-/-- Outside `SupportedCfg` (3): a field whose name decodes to no word (`dials:"_"`) or with an explicitly
-empty `dialsenv:""` tag reaches env.go's explicit panic, whatever the environment (finding P05: the real
-env source panics with "empty dialsenv tag for field name A"). -/
-theorem C16_env_empty_tag_counterexample (lookup : String → Option String) :
-    envValue 64 (envChain 64 cxToks) "" cxEmptyTag lookup = .panic "empty dialsenv tag" ∧
-    envValue 64 (envChain 64 cxToks) "" cxEmptyEnvTag lookup = .panic "empty dialsenv tag" :=
-  ⟨envValue_panics_empty_tag lookup, envValue_panics_empty_envtag lookup⟩
+/-- A field whose name decodes to no word (`dials:"_"`) or with an explicitly empty `dialsenv:""` tag,
+whatever the environment: since the repair of P05 env.go returns the error instead of panicking (before:
+explicit panic "empty dialsenv tag for field name A"); the model follows; both types are inside
+`SupportedCfg` (C16_repaired_shapes_supported). -/
+theorem C16_env_empty_tag_is_error (lookup : String → Option String) :
+    envValue 64 (envChain 64 cxToks) "" cxEmptyTag lookup = .err "empty dialsenv tag" ∧
+    envValue 64 (envChain 64 cxToks) "" cxEmptyEnvTag lookup = .err "empty dialsenv tag" :=
+  ⟨envValue_empty_tag_is_error lookup, envValue_empty_envtag_is_error lookup⟩
 
-/-- Outside `SupportedCfg` (4) — a MODEL artefact, not an implementation panic: an array of structs as a
+/-- Outside `SupportedCfg` (2) — a MODEL artefact, not an implementation panic: an array of structs as a
 bare flattened leaf (`P **struct{ R [2]struct{ A *int } }`, nothing set).  The model's untyped `nilv`
 stands for "unset", which a Go array cannot be: the real code passes the zero array through the recursing
 manglers without panicking.  `SupportedCfg` excludes the shape so that the theorem stays about panics
@@ -216,27 +233,40 @@ theorem C16_env_array_of_structs_model_artefact :
       .panic "unexpected value kind in recursive unmangle" :=
   envValue_panics_array_of_structs
 
-/-- All five counterexample types are indeed outside `SupportedCfg` (the predicate is not vacuous the other
+/-- Both counterexample types are indeed outside `SupportedCfg` (the predicate is not vacuous the other
 way: it rejects exactly these shapes). -/
 theorem C16_counterexamples_unsupported :
-    SupportedCfg 64 cxValueStruct = false ∧ SupportedCfg 64 cxUnwrappedLeaf = false ∧
-    SupportedCfg 64 cxEmptyTag = false ∧ SupportedCfg 64 cxEmptyEnvTag = false ∧
-    SupportedCfg 64 cxArrayOfStructs = false :=
+    SupportedCfg 64 cxValueStruct = false ∧ SupportedCfg 64 cxArrayOfStructs = false :=
   counterexamples_unsupported
 
+/-- The three shapes whose panics were repaired into errors (P02: `P **struct{ A int }`; P05: `dials:"_"`,
+`dialsenv:""`) are inside `SupportedCfg`: `C16_env_total` covers them. -/
+theorem C16_repaired_shapes_supported :
+    SupportedCfg 64 cxUnwrappedLeaf = true ∧ SupportedCfg 64 cxEmptyTag = true ∧
+    SupportedCfg 64 cxEmptyEnvTag = true :=
+  repaired_now_supported
+
 /-- The guard sites of the catalogue that the models rely on without representing them (reflect's typed
-operations), as found in the current source by the facts translator (F21a–F21p): the Convert calls and
-the pointer guard of parse.String / parse.Map / the string-cast mangler (repairs of D8, D19), the
-pointer-level rebuild, nil guards, assignability and CanSet checks of populateStruct (repair of D18), the
-flatten mangler's nil-ability and count checks, the alias mangler's length switch, ReverseTranslate's
-ConvertibleTo check and FieldByIndexErr.  Reverting a repair or removing a guard makes this false. -/
+operations), as found in the current source by the facts translator (F21a–F21aa): the Convert calls and
+the pointer guard of parse.String / parse.Map / the string-cast mangler (repairs of D8, D19), its kind
+guard before Type.Elem and its boxing as a user-defined pointer type (repairs of P02, P11), the
+pointer-level rebuild from the declared types, nil guards, assignability and CanSet checks and the
+by-value struct case of populateStruct (repairs of D18, P02, P03, P11), the flatten mangler's nil-ability
+and count checks, the alias mangler's length switch and un-embedded copy (P10), ReverseTranslate's
+ConvertibleTo check and FieldByIndexErr, the env source's error for an empty tag (P05), the flag sources'
+kind / convertibility / name / shorthand checks (P02, P04, P06, P07), the anonymous-flatten mangler's
+struct guards (P08) and the recover around the TOML and CUE parsers (P09, P14).  Reverting a repair or
+removing a guard makes this false. -/
 theorem C16_guard_facts :
     Facts.parseStringElemGuard = true ∧ Facts.parseStringConvertsElem = true ∧ Facts.parseMapConverts = true ∧
     Facts.parseMapDupCheck = true ∧ Facts.stringCastConverts = true ∧ Facts.stringCastNilGuard = true ∧
     Facts.populateRebuildsPtrLevels = true ∧ Facts.populateNilGuards = 2 ∧ Facts.populateChecksAssignable = true ∧
     Facts.populateCanSetChecks = 2 ∧ Facts.flattenRejectsNonNilable = true ∧ Facts.flattenCountCheck = true ∧
     Facts.aliasLengthSwitch = true ∧ Facts.reverseChecksConvertible = true ∧ Facts.reverseFieldByIndexErr = true ∧
-    Facts.envPanicsOnEmptyTag = true := by
+    Facts.envErrorsOnEmptyTag = true ∧ Facts.populateLeafChecksAssignable = true ∧ Facts.populateValueStruct = true ∧
+    Facts.stringCastElemGuard = true ∧ Facts.stringCastBoxesNamedPtr = true ∧ Facts.flagKindGuards = 2 ∧
+    Facts.flagConvertGuards = 2 ∧ Facts.flagNameChecked = true ∧ Facts.pflagShorthandChecked = true ∧
+    Facts.anonFlattenStructGuards = 2 ∧ Facts.aliasCopyNotEmbedded = true ∧ Facts.decodersRecover = 2 := by
   decide
 
 /-- non-vacuity of `C16_env_total`: a config with a pointer to a struct holding a nested pointer-to-struct, a
